@@ -42,6 +42,7 @@ def obligations(ctx: Ctx):
         Ob(f"{P}.F1.reads", "F", "the emitter reads no source position (line, column, tokens)", EMIT, framesobs.ob_reads_no_position(EMIT)),
         Ob(f"{P}.F1.effects", "F", "the emitter has no ambient effect", EMIT, framesobs.ob_no_effects(EMIT, ("global_write", "env", "cwd", "clock", "random", "locale", "hash_order", "identity", "fs_read", "fs_write", "subprocess", "await"))),
         Ob(f"{P}.F1.assigns", "F", "the emitter mutates only fresh locals", EMIT, framesobs.ob_params_not_mutated(EMIT, ("octave_mcp.core.emitter:",))),
+        Ob(f"{P}.F5.holo", "F", "the written form of a holographic value escapes its strings with the emitter's chain (so unescape∘escape = id covers strings inside patterns)", ["octave_mcp.core.parser:Parser._reconstruct_pattern_from_tokens", "octave_mcp.core.parser:Parser._try_parse_holographic"], LX.ob_holographic_chain),
         Ob(f"{P}.B4", "B", "hand-found documents outside the model (nameless sections, holographic patterns with escapes): canonical output is strict-readable and byte-stable", ["octave_mcp.core.parser:parse", "octave_mcp.core.emitter:emit"], rawchars_b.ob_hand, timeout=600),
         Ob(f"{P}.B3", "B", "control characters delivered raw inside quotes / comments through octave_write(content): the file written is a fixed point of normalize", ["octave_mcp.mcp.write:WriteTool.execute"], rawchars_b.ob_raw(f"{P}.B3"), timeout=600),
         Ob(f"{P}.B1", "B", "emit∘parse is accepted by the strict reader and byte-stable on every model document / lenient rendering", ["octave_mcp.core.parser:parse", "octave_mcp.core.parser:parse_with_warnings", "octave_mcp.core.emitter:emit"], ob_b1, timeout=3000),
